@@ -70,7 +70,7 @@ def check(ctx):
         if i >= 0:
             j = t.find(";.String::push(')')", i)
             seg = t[i:j if j > 0 else len(t)]
-            ok = "(Option::is_some(Peekable::peek(" in seg and "||(slice::len(" in seg and "fields)=='1'))" in seg
+            ok = "(let v1::Some($)=Peekable::peek(" in seg and "||(slice::len(" in seg and "fields)=='1'))" in seg
         ctx.expect(ok, "C13.3", nm, fn["sp"], "comma pushed iff peek().is_some() || len == 1 (one-element tuples keep their comma)", "tuple comma rule changed in " + fnsuf)
     # K1 primitive names
     pf = q.fn1(P, "description::primitive_type_description", D)
